@@ -51,3 +51,170 @@ def rng_params(f):
         if base in bounded:
             out.append(i + 1)
     return out
+
+
+# ---------------- draw summaries: how many primitive draws an operation makes, as a symbolic count ----------------
+#
+# summary(f) = list of (primitive, factors): one entry per primitive draw site reached through calls that forward the
+# caller's rng; factors are the multiplicities of the enclosing constructs:
+#   ("n", term)        a counted loop / `.take(term)` over the draw: executed `term` times (term over f's arguments)
+#   ("each", term)     once per element of the iterated collection `term`
+#   ("retry", fnkey)   a loop without an iterator (rejection sampling)
+#   ("maybe", fnkey)   the site is not on every successful path
+# Call sites instantiate the callee's summary with the actual arguments; `n(const k)` folds into the coefficient.
+# The result is independent of how the draw is routed (through preprocess(1), a helper, or written inline).
+
+PRIMITIVE_TRAITS = ("::Field", "RngCore", "::Rng", "CryptoRng", "TryRngCore")
+
+
+def _rng_hit(f, v, bb, t, rp, is_clo):
+    from .lib import base_of
+    a = v.call_args(bb)
+    if is_clo:
+        rngp = lambda x: x[0] == "field" and x[1] == ("arg", 1)
+        return any(mentions(x, rngp) and "&mut" in ty for x, ty in zip(a, t["arg_tys"]))
+    rngp = lambda x: x[0] == "arg" and x[1] in rp
+    for x, ty in zip(a, t["arg_tys"]):
+        if x[0] == "closure" and any(base_of(c) in [("arg", i) for i in rp] for c in x[2]):
+            return True
+        if mentions(x, rngp) and (ty.startswith("&mut") or ty in [f.j["inputs"][i - 1] for i in rp]):
+            if base_of(x) in [("arg", i) for i in rp] or x[0] == "closure":
+                return True
+    return False
+
+
+def _trip(prog, f, v, bb):
+    """multiplicity factors of block bb from the loops that contain it"""
+    from .lib import loop_report, body_reach, strip_iter_calls
+    out = []
+    for lp in loop_report(prog, f):
+        if bb not in lp["body"]:
+            continue
+        it = lp["iter_term"]
+        if it is None:
+            out.append(("retry", f.key))
+        else:
+            src = strip_iter_calls(it)
+            rng = _range_len(src)
+            out.append(("n", rng) if rng is not None else ("each", src))
+        _, back = body_reach(f, lp, list(lp["some_targets"]) or [lp["header"]], removed_blocks={bb})
+        if back and it is not None:
+            out.append(("maybe", f.key))
+    return out
+
+
+def _range_len(t):
+    """length of `a..b` as a term, when a is the constant 0"""
+    if isinstance(t, tuple) and t and t[0] == "agg" and (t[2] or "").endswith("ops::range::Range"):
+        d = dict(t[4])
+        s, e = d.get("start"), d.get("end")
+        if s is not None and s[0] == "const" and s[2] == 0:
+            return e
+    return None
+
+
+def _unconditional(f, bb):
+    """every successful return passes through bb"""
+    from .guards import ret_writes, returns_result
+    ins = frozenset((p, bb) for (p, _lab) in f.preds().get(bb, ()))
+    r = f.reach(0, removed=ins) if bb != 0 else set()
+    if returns_result(f):
+        sinks = {b for (b, k, _) in ret_writes(f) if k in ("ok", "call", "other")}
+    else:
+        sinks = {b for b in f.normal_blocks() if f.blocks[b].term["k"] == "return"}
+    return not (r & sinks)
+
+
+def draw_summary(prog, f, memo=None, stack=()):
+    from .lib import FnView, subst, closure_body
+    memo = memo if memo is not None else {}
+    if f.key in memo:
+        return memo[f.key]
+    if f.key in stack:
+        return [("recursion:" + f.key, ())]
+    is_clo = f.kind == "Closure"
+    rp = rng_params(f)
+    v = FnView.get(prog, f)
+    out = []
+    for (bb, t, ci) in f.calls():
+        if not ci or not _rng_hit(f, v, bb, t, rp, is_clo):
+            continue
+        factors = _trip(prog, f, v, bb)
+        in_loop = any(bb in lp["body"] for lp in f.loops())
+        if not in_loop and not _unconditional(f, bb):
+            factors.append(("maybe", f.key))
+        args = v.call_args(bb)
+        callees = [g for g in prog.resolve_call(ci, generic_join=True) if g.has_body and g.crate.startswith("frost")] \
+            if not _is_primitive(ci) else []
+        clos = [a for a in args if a[0] == "closure"]
+        if clos:
+            # the rng travels inside a closure handed to an iterator adaptor: the closure's draws, once per produced item
+            ret = v.cx.local(0)
+            for c in clos:
+                cf = prog.fns.get(c[1])
+                if cf is None:
+                    out.append(("opaque-closure", tuple(factors)))
+                    continue
+                mult = [("each", ("closure-items", f.key))]
+                for s in subterms(ret):
+                    if is_call(s, name="take") and len(s[2]) == 2 and mentions(s[2][0], lambda x: x == c):
+                        mult = [("n", s[2][1])]
+                caps = [(lambda x, i=i: x == ("field", ("arg", 1), None, str(i)), cap) for i, cap in enumerate(c[2])]
+                for (prim, fs) in draw_summary(prog, cf, memo, stack + (f.key,)):
+                    out.append((prim, tuple(factors) + tuple(mult) + tuple(_sub_factor(x, caps) for x in fs)))
+            continue
+        if not callees:
+            out.append((_prim_name(ci), tuple(factors)))
+            continue
+        sums = []
+        for g in callees:
+            m = [(lambda x, i=i: x == ("arg", i + 1), a) for i, a in enumerate(args)]
+            sums.append(sorted(((prim, tuple(factors) + tuple(_sub_factor(x, m) for x in fs))
+                                for (prim, fs) in draw_summary(prog, g, memo, stack + (f.key,))), key=repr))
+        if any(s != sums[0] for s in sums[1:]):
+            out.append(("implementations-disagree:" + ci["name"], tuple(factors)))
+        else:
+            out.extend(sums[0])
+    memo[f.key] = out
+    return out
+
+
+def _is_primitive(ci):
+    tr = ci.get("trait") or ""
+    return any(tr.endswith(x) for x in PRIMITIVE_TRAITS) or not (ci.get("crate") or "").startswith("frost")
+
+
+def _prim_name(ci):
+    tr = (ci.get("trait") or "").rsplit("::", 1)[-1]
+    return (tr + "::" if tr else "") + ci["name"]
+
+
+def _sub_factor(x, mapping):
+    from .lib import subst
+    if x[0] in ("n", "each") and isinstance(x[1], tuple):
+        return (x[0], subst(x[1], mapping))
+    return x
+
+
+def normal_form(summary):
+    """{primitive: {sorted factor strings: coefficient}} with n(const k) folded into the coefficient"""
+    from .terms import fmt, strip_casts
+    out = {}
+    for (prim, fs) in summary:
+        coef = 1
+        names = []
+        for x in fs:
+            if x[0] == "n":
+                t = strip_casts(x[1])[0]
+                if t[0] == "const" and isinstance(t[2], int):
+                    coef *= t[2]
+                    continue
+                names.append("n(%s)" % fmt(t))
+            elif x[0] == "each":
+                names.append("each(%s)" % (fmt(x[1]) if x[1][0] != "closure-items" else "items of " + x[1][1].rsplit("::", 1)[-1]))
+            else:
+                names.append("%s(%s)" % (x[0], x[1].rsplit("::", 1)[-1]))
+        k = " * ".join(sorted(names)) or "1"
+        d = out.setdefault(prim, {})
+        d[k] = d.get(k, 0) + coef
+    return {p: {k: c for k, c in d.items() if c} for p, d in out.items()}
